@@ -1102,7 +1102,8 @@ fn run_budget(r: &mut Report, seed: u64, case: u64, thorough: bool) {
     }
     col.settle();
     let attempts_a = col.records().iter().filter(|rec| rec.endpoint == x && rec.decision == fa || (rec.endpoint == x && fa == Decision::DropOnAccept && rec.decision == Decision::DropBeforeBody)).count();
-    r.observe(&format!("budget:attempts-until-given-up={}", attempts_a), 1);
+    r.observe(&format!("budget:attempts-seen-by-the-collector-until-given-up={}", attempts_a), 1);
+    r.observe(&format!("budget:failing-on-every-attempt:{}", fa.class()), 1);
     if attempts_a < 2 {
         r.observe("budget:scenarios-inconclusive", 1);
         r.inconclusive("retry-budget scenario: the failing batch was attempted fewer than 2 times");
@@ -1223,7 +1224,8 @@ fn main() {
         std::process::exit(r.finish());
     }
 
-    let n = args.n(210, 8064);
+    let section = args.get("section").unwrap_or("all").to_string();
+    let n = if section == "budget" { 0 } else { args.n(210, 8064) };
     spread(&mut r, &args, n, |i, r| {
         let sc = generate(seed, i, &opts);
         run(r, &sc);
@@ -1232,7 +1234,7 @@ fn main() {
     // retry-budget sequences (3 transports x 3 layouts x 3 signals for the failing batch, every failure
     // kind for the batch that follows)
     let thorough = args.thorough();
-    let n_budget = args.n(54, 810);
+    let n_budget = if section == "main" { 0 } else { args.n(54, 810) };
     spread(&mut r, &args, n_budget, |i, r| run_budget(r, seed, i, thorough));
     let inconclusive = r.observed.get("scenarios-inconclusive").copied().unwrap_or(0);
     if inconclusive * 5 > n {
